@@ -282,7 +282,8 @@ def poly_case(draw, tier="quick"):
             "frame": [draw(C.ints(3)) for _ in range(9)], "other": draw(st.sampled_from(["line", "segment"])), "mode": draw(st.sampled_from(["generic", "vertex", "two_vertices", "along_edge", "miss", "inplane", "parallel"])),
             "q": [draw(st.integers(-8, 16)) for _ in range(4)], "k": draw(st.integers(0, 5)), "h": draw(st.sampled_from([1, 2, -1, 3])),
             "derive": draw(st.sampled_from(Z.DERIVATIONS)), "move": [draw(st.integers(-4, 4)) for _ in range(3)],
-            "es": [draw(st.sampled_from([0, 0, 1, 2, 3])), draw(st.sampled_from([0, 0, 1, 2, 3]))]}
+            "es": [draw(st.sampled_from([0, 0, 1, 2, 3])), draw(st.sampled_from([0, 0, 1, 2, 3]))],
+            "vf": [draw(st.sampled_from([1.0, 1.0, -1.0, 2.0, -0.5])) for _ in range(6)]}
 
 
 def run_poly(c):
@@ -308,7 +309,10 @@ def run_poly(c):
     if c["dim"] == 2:
         if mode in ("inplane", "parallel"):
             raise Skip("3D only")
-        poly, f = call("polygon2:construct", Z.derive_moved, lambda rows: Polygon(rows), np.array([hom(p) for p in pts]), c.get("derive"), c.get("move", [1, 2, 3]),
+        vf = [float(x) for x in (c.get("vf") or [1.0] * 6)] + [1.0] * 6  # every vertex by its own (also negative) representative
+        if any(x == 0 or abs(x) > 4 for x in vf):
+            raise Skip("malformed")
+        poly, f = call("polygon2:construct", Z.derive_moved, lambda rows: Polygon(rows), np.array([hom(p) * vf[i] for i, p in enumerate(pts)]), c.get("derive"), c.get("move", [1, 2, 3]),
                        lambda rows0: Point(rows0[0]), lambda p0: p0.intersect(Line(P(A), P(B))))
         if f:
             return [f]
@@ -352,7 +356,10 @@ def run_poly(c):
         raise Skip("degenerate frame")
     nrm = np.cross(u, w)
     e3 = lambda p: o + float(p[0]) * u + float(p[1]) * w  # noqa: E731
-    poly, f = call("polygon3:construct", Z.derive_moved, lambda rows: Polygon(rows), np.array([np.append(e3(p), 1.0) for p in pts]), c.get("derive"), c.get("move", [1, 2, 3]),
+    vf = [float(x) for x in (c.get("vf") or [1.0] * 6)] + [1.0] * 6
+    if any(x == 0 or abs(x) > 4 for x in vf):
+        raise Skip("malformed")
+    poly, f = call("polygon3:construct", Z.derive_moved, lambda rows: Polygon(rows), np.array([np.append(e3(p), 1.0) * vf[i] for i, p in enumerate(pts)]), c.get("derive"), c.get("move", [1, 2, 3]),
                    lambda rows0: Point(rows0[0]), lambda p0: p0.intersect(Line(P(e3(A) + nrm), P(e3(A) - nrm))))
     if f:
         return [f]
@@ -398,7 +405,7 @@ def poly_labels(c):
 
 
 def _poly_labels(c):
-    return [f"dim{c['dim']}", c["other"], c["mode"]]
+    return [f"dim{c['dim']}", c["other"], c["mode"]] + (["vertex-representatives-of-mixed-sign"] if len({x > 0 for x in (c.get("vf") or [1.0])[: len(c["idx"])]}) > 1 else [])
 
 
 # ------------------------------------------------------------------------------------------- cuboids
